@@ -4,7 +4,7 @@ without being recomputed, is stale from the second iteration on - unless it is a
 stale_reads(fnode, loop) -> [(name, definition stmt, dependency name, first reading node)]
 """
 import ast
-from .core import dotted, src
+from .core import dotted, src, guarded, guarded_list
 
 VIEW_ONLY = {'view', 'reshape', 'unsqueeze', 'squeeze', 'diagonal', 'transpose', 'permute', 'narrow', 'select', 'detach', 'view_as',
              'expand', 'expand_as', 'contiguous', 'tensor', 'unbind', 'split', 'chunk', 'flatten'}
@@ -190,6 +190,7 @@ def conditional_stale(fnode, loop):
     return out
 
 
+@guarded
 def rule_stale(repo, rid, targets, floor=None):
     """targets: [(module, qualname)] - every loop of those functions is examined"""
     from .core import RuleResult, Finding
